@@ -142,3 +142,84 @@ def check_layer_stack(sv, res, states=None, transitions=None):
 def executed(res, what='body'):
     """[(vpid, test id)] for every test-body event."""
     return [(ev[0], ev[2]) for ev in res.trace if ev[1] == 't' and ev[3] == what]
+
+
+def linear_extension_ok(sv, seq):
+    """Every layer appears after all of its (transitive) bases in seq."""
+    seen = set()
+    for X in seq:
+        for b in sv.closure[X]:
+            if b != X and b in seq and b not in seen:
+                return False
+        seen.add(X)
+    return True
+
+
+def check_test_hooks(sv, res, states=None, transitions=None):
+    """C05 monitor: per-test layer hooks bracket every test."""
+    viol = []
+    per = {}
+    for ev in res.trace:
+        per.setdefault(ev[0], []).append(ev[1:-3])
+    for vpid, events in per.items():
+        cur = None
+        S = D = phases = None
+        depth = {}
+        for ev in events:
+            if ev[0] == 't':
+                tid, what = ev[1], ev[2]
+                if what == 'run>':
+                    cur = tid
+                    S, D, phases = [], [], []
+                elif what == 'run<':
+                    script = sv.tests[tid]['s']
+                    want = [X for X in sv.test_closure(tid)
+                            if sv.has_hook(X, 'testSetUp')]
+                    wantD = [X for X in sv.test_closure(tid)
+                             if sv.has_hook(X, 'testTearDown')]
+                    s_layers = [x[1] for x in phases if x[0] == 'S']
+                    d_layers = [x[1] for x in phases if x[0] == 'D']
+                    started = any(x[0] == 'T' for x in phases) or bool(s_layers)
+                    sig = {'script': script}
+                    if sorted(d_layers) != sorted(set(d_layers)) or sorted(s_layers) != sorted(set(s_layers)):
+                        viol.append(('hook_twice', sig, 'test %s: testSetUp %s testTearDown %s' % (tid, s_layers, d_layers)))
+                    if set(s_layers) - set(want) or set(d_layers) - set(wantD):
+                        viol.append(('hook_outside_stack', sig, 'test %s (stack %s): testSetUp on %s, testTearDown on %s' % (tid, sorted(sv.test_closure(tid)), s_layers, d_layers)))
+                    bal_S = [x for x in s_layers if x in wantD]
+                    bal_D = [x for x in d_layers if x in want]
+                    if bal_D != bal_S[::-1]:
+                        viol.append(('unbalanced_or_not_mirrored', sig, 'test %s: testSetUp order %s, testTearDown order %s (must be the exact reverse)' % (tid, s_layers, d_layers)))
+                    if started:
+                        if sorted(s_layers) != sorted(want):
+                            viol.append(('testSetUp_missing', sig, 'test %s started: testSetUp on %s, expected each of %s once' % (tid, s_layers, sorted(want))))
+                        if sorted(d_layers) != sorted(wantD):
+                            viol.append(('testTearDown_missing', sig, 'test %s started: testTearDown on %s, expected each of %s once' % (tid, d_layers, sorted(wantD))))
+                        if not linear_extension_ok(sv, s_layers):
+                            viol.append(('bases_not_first', sig, 'test %s: testSetUp order %s is not bases-first' % (tid, s_layers)))
+                        # position relative to the test's own phases
+                        idx = {k: [i for i, x in enumerate(phases) if x[0] == k] for k in 'STD'}
+                        tpos = [i for i, x in enumerate(phases) if x[0] == 'T']
+                        if idx['S'] and tpos and max(idx['S']) > min(tpos):
+                            viol.append(('testSetUp_after_test_setUp', sig, 'test %s: phases %s' % (tid, phases)))
+                        if idx['D'] and tpos and min(idx['D']) < max(tpos):
+                            viol.append(('testTearDown_before_test_tearDown', sig, 'test %s: phases %s' % (tid, phases)))
+                    if states is not None:
+                        states.add((script, tuple(s_layers), tuple(d_layers)))
+                    cur = None
+                elif cur is not None and what in ('setUp', 'body', 'tearDown', 'cleanup'):
+                    phases.append(('T', what))
+            elif ev[0] == 'L' and ev[2] in ('testSetUp', 'testTearDown') and ev[3] == '>':
+                X = ev[1]
+                k = 'S' if ev[2] == 'testSetUp' else 'D'
+                d = depth.get(X, 0) + (1 if k == 'S' else -1)
+                depth[X] = d
+                if d not in (0, 1) and sv.has_hook(X, 'testSetUp') and sv.has_hook(X, 'testTearDown'):
+                    viol.append(('depth', {'k': k}, 'vpid %s: layer %s per-test hook depth becomes %d' % (vpid, X, d)))
+                    depth[X] = 0
+                if cur is None:
+                    viol.append(('hook_outside_test', {'k': k}, 'vpid %s: %s.%s called outside any test' % (vpid, X, ev[2])))
+                else:
+                    phases.append((k, X))
+                if transitions is not None:
+                    transitions.add((cur is not None, k, d))
+    return viol
